@@ -181,7 +181,7 @@ func runC10(t *testing.T, seed int64, n int, out *Out) {
 		h := &Hist{w: w, std: std, r: r}
 		// governance-permitted settings of the leveragelp fallback sweep (every block / one position per block / every 7th block /
 		// off): with the sweep off or slow an unhealthy position stays open until a bot names it - or its owner re-opens it
-		sweep := []string{"default", "off", "every-7-blocks", "one-per-block"}[r.Intn(4)]
+		sweep := []string{"default", "default", "default", "off", "every-7-blocks", "one-per-block"}[r.Intn(6)]
 		w.Seed(func(ctx sdk.Context) {
 			p := w.App.LeveragelpKeeper.GetParams(ctx)
 			switch sweep {
@@ -284,11 +284,19 @@ func runC10(t *testing.T, seed int64, n int, out *Out) {
 			owner := w.byAddr[p.Address]
 			ammPool, _ := w.App.AmmKeeper.GetPool(w.Ctx(), p.AmmPoolId)
 			lpPrice, _ := ammPool.LpTokenPrice(w.Ctx(), w.App.OracleKeeper, w.App.AccountedPoolKeeper)
-			sl := lpPrice.Mul(D([]string{"0.5", "0.9", "0.99"}[r.Intn(3)]))
+			// from far below the market to a hair under it (then anything that moves the price the sweep computes by a few tenths of a
+			// per cent - such as the closure of a large position of the same pool earlier in the same sweep - decides)
+			sl := lpPrice.Mul(D([]string{"0.5", "0.9", "0.99", "0.995", "0.998", "0.9995"}[r.Intn(6)]))
 			res := tx(owner, &lptypes.MsgUpdateStopLoss{Creator: owner.Addr.String(), Position: p.Id, Price: sl})
 			stats["updateStopLoss/lp/"+codeStr(res.Code)]++
 		}
 		// ---- probe rounds
+		// two quiet hours first: the one-hour commitment locks of the freshly opened leveraged-LP positions are over, so stop-loss closes
+		// (which do not override a lock) can go through from the first round on
+		gapSeen := false
+		if gr := w.Block(2*time.Hour, nil); gr.Err == nil && !gr.Panicked {
+			gapSeen = true
+		}
 		for round := 0; round < n; round++ {
 			// price move in its own block
 			pt := h.priceTx()
@@ -296,7 +304,7 @@ func runC10(t *testing.T, seed int64, n int, out *Out) {
 			// now and then nothing happens for a long time: interest and funding accrue unsettled on every position nobody names
 			postGap := false
 			if r.Intn(6) == 0 {
-				postGap = true
+				postGap, gapSeen = true, true
 				gap := []time.Duration{6 * time.Hour, 3 * 24 * time.Hour, 21 * 24 * time.Hour}[r.Intn(3)]
 				if gr := w.Block(gap, nil); gr.Err != nil || gr.Panicked {
 					break
@@ -307,8 +315,60 @@ func runC10(t *testing.T, seed int64, n int, out *Out) {
 			// governance moves a safety factor next to some position's health (boundary forcing), between two blocks
 			dt := 5 * time.Second
 			pred := w.c10Predict(dt)
+			// a pair of leveraged-LP positions of one pool that the sweep visits in this order: the first is made liquidatable (safety
+			// factor just above its health), the second gets a stop loss a little below the market - by half the share of the pool the
+			// first one holds. Closing the first must not change how the second is judged in the same sweep.
+			pairForced := false
+			if !postGap && gapSeen && sweep == "default" && r.Intn(2) == 0 { // after a long gap the one-hour locks of the positions are over: a stop-loss close can go through
+				all := w.App.LeveragelpKeeper.GetAllPositions(w.Ctx())
+			pairs:
+				for i := 0; i < len(all); i++ {
+					for j := i + 1; j < len(all); j++ {
+						a, b := all[i], all[j]
+						ob := w.byAddr[b.Address]
+						if a.AmmPoolId != b.AmmPoolId || a.Address == b.Address || ob == nil {
+							continue
+						}
+						ammPool, ok := w.App.AmmKeeper.GetPool(w.Ctx(), a.AmmPoolId)
+						if !ok || !ammPool.TotalShares.Amount.IsPositive() {
+							continue
+						}
+						x := math.LegacyNewDecFromInt(a.LeveragedLpAmount).Quo(math.LegacyNewDecFromInt(ammPool.TotalShares.Amount))
+						lpPrice, err := ammPool.LpTokenPrice(w.Ctx(), w.App.OracleKeeper, w.App.AccountedPoolKeeper)
+						if err != nil || x.LT(D("0.001")) {
+							continue
+						}
+						var ha, hb math.LegacyDec
+						for _, q := range pred {
+							if q.Module == "lp" && q.Id == a.Id && q.PredErr == "" {
+								ha = q.Health
+							}
+							if q.Module == "lp" && q.Id == b.Id && q.PredErr == "" {
+								hb = q.Health
+							}
+						}
+						if ha.IsNil() || !ha.IsPositive() || ha.Mul(D("1.002")).GTE(D("3")) || ha.Mul(D("1.002")).LTE(D("1")) {
+							continue
+						}
+						if hb.IsNil() || hb.LTE(ha.Mul(D("1.01"))) {
+							continue // the second one has to stay healthy under the safety factor that makes the first liquidatable
+						}
+						sl := lpPrice.Mul(math.LegacyOneDec().Sub(x.QuoInt64(2)))
+						res := tx(ob, &lptypes.MsgUpdateStopLoss{Creator: ob.Addr.String(), Position: b.Id, Price: sl})
+						stats["sweepPair/stopLoss/"+codeStr(res.Code)]++
+						w.Seed(func(ctx sdk.Context) {
+							p := w.App.LeveragelpKeeper.GetParams(ctx)
+							p.SafetyFactor = ha.Mul(D("1.002"))
+							_ = w.App.LeveragelpKeeper.SetParams(ctx, &p)
+						})
+						pairForced = true
+						pred = w.c10Predict(dt)
+						break pairs
+					}
+				}
+			}
 			var gapTarget *c10Pos
-			if len(pred) > 0 && (postGap || r.Intn(2) == 0) {
+			if !pairForced && len(pred) > 0 && (postGap || r.Intn(2) == 0) {
 				c := pred[r.Intn(len(pred))]
 				if postGap {
 					// after a long gap: a perpetual position carrying unsettled interest, the safety factor put just above the health
